@@ -627,8 +627,58 @@ pub fn n_probes() -> u64 {
     (N_DEEP_KINDS * DEPTHS.len() * 5) as u64
 }
 
+/// Option peers: every numeric limit at 0, 1 and usize::MAX in turn (and the ratio parameters at their
+/// extremes), against documents that exercise the limit. Arithmetic on limits must not overflow or panic.
+pub fn option_peers() -> Vec<(String, OptVec, String)> {
+    let mut v = Vec::new();
+    let mut alias_doc = String::from("p: &p 1\nq: &q [2, 3]\nm: &m {a: 1}\n");
+    for i in 0..12 {
+        alias_doc.push_str(&format!("k{i}: {}\n", ["*p", "*q", "*m"][i % 3]));
+    }
+    alias_doc.push_str("z:\n  <<: *m\n  y: [*p, *q]\n");
+    let docs = [alias_doc, deep_doc(2, 40), wide_doc(1, 200), "---\na: 1\n---\nb: 2\n---\nc: 3\n".to_string()];
+    let extremes = [0usize, 1, 2, usize::MAX / 2 + 1, usize::MAX - 1, usize::MAX];
+    for (di, d) in docs.iter().enumerate() {
+        for field in 0..14 {
+            for &x in &extremes {
+                let mut o = OptVec::default();
+                let mut b = serde_saphyr::Budget::default();
+                #[allow(deprecated)]
+                match field {
+                    0 => b.max_events = x,
+                    1 => b.max_aliases = x,
+                    2 => b.max_anchors = x,
+                    3 => b.max_depth = x,
+                    4 => b.max_documents = x,
+                    5 => b.max_nodes = x,
+                    6 => b.max_total_scalar_bytes = x,
+                    7 => b.max_merge_keys = x,
+                    8 => {
+                        b.alias_anchor_min_aliases = 0;
+                        b.alias_anchor_ratio_multiplier = x;
+                    }
+                    9 => b.alias_anchor_min_aliases = x,
+                    10 => b.max_reader_input_bytes = Some(x),
+                    11 => o.alias_limits.max_total_replayed_events = x,
+                    12 => o.alias_limits.max_replay_stack_depth = x,
+                    _ => o.alias_limits.max_alias_expansions_per_anchor = x,
+                }
+                o.budget = Some(b);
+                o.crop_radius = [64usize, 0, 1, usize::MAX][(field + di) % 4];
+                v.push((d.clone(), o, format!("option-peer doc={di} field={field} value={x}")));
+            }
+        }
+    }
+    v
+}
+
+pub fn n_option_peers() -> u64 {
+    (4 * 14 * 6) as u64
+}
+
 pub fn total(tier: Tier) -> u64 {
     n_probes()
+        + n_option_peers()
         + match tier {
             Tier::Quick => 16_000,
             Tier::Thorough => 300_000,
@@ -669,6 +719,20 @@ pub fn gen_case(tier: Tier, seed: u64, idx: u64) -> Case {
             origin: format!("deep kind={kind} depth={depth}"),
         });
     }
+    if idx < n_probes() + n_option_peers() {
+        let peers = option_peers();
+        let (doc, opts, origin) = peers[(idx - n_probes()) as usize].clone();
+        return Case::C01(TotalCase {
+            bytes: Doc::from_str(&doc),
+            target: T01::Fam(Target::Json),
+            opts,
+            chunking: Chunking::Fixed(7),
+            faults: vec![],
+            nonsticky_eof_at: None,
+            closure_mode: 0,
+            origin,
+        });
+    }
     let target = match rng.below(10) {
         0..=4 => T01::Fam(*rng.pick(&ALL_TARGETS)),
         _ => *rng.pick(&ALL_T01),
@@ -707,7 +771,17 @@ pub fn gen_case(tier: Tier, seed: u64, idx: u64) -> Case {
         }
         10 => {
             origin.push("rc-graph".to_string());
-            "a: &x [p, q]\nb: *x\nw: *x\nr: &s t\n".to_string()
+            if rng.chance(1, 2) {
+                "a: &x [p, q]\nb: *x\nw: *x\nr: &s t\n".to_string()
+            } else {
+                // several anchors, many aliases
+                let n = rng.range(2, 40);
+                let mut s = String::from("p: &p 1\nq: &q [2]\n");
+                for i in 0..n {
+                    s.push_str(&format!("k{i}: {}\n", if i % 2 == 0 { "*p" } else { "*q" }));
+                }
+                s
+            }
         }
         _ => {
             origin.push("mutated".to_string());
@@ -767,6 +841,20 @@ pub fn gen_case(tier: Tier, seed: u64, idx: u64) -> Case {
             b.max_nodes = *rng.pick(&[0, 1, 10, 1000]);
             b.max_events = *rng.pick(&[0, 5, 100, 100_000]);
             b.max_reader_input_bytes = *rng.pick(&[Some(0), Some(10), Some(1000), None]);
+        }
+        if rng.chance(1, 3) {
+            // extreme values: arithmetic on the limits must not overflow
+            #[allow(deprecated)]
+            {
+                b.enforce_alias_anchor_ratio = true;
+                b.alias_anchor_min_aliases = *rng.pick(&[0usize, 1, 2]);
+                b.alias_anchor_ratio_multiplier = *rng.pick(&[0usize, 1, usize::MAX, usize::MAX / 2 + 1]);
+                b.max_depth = *rng.pick(&[usize::MAX, 2000]);
+                b.max_nodes = usize::MAX;
+                b.max_events = usize::MAX;
+                b.max_total_scalar_bytes = *rng.pick(&[usize::MAX, 0, 3]);
+                b.max_reader_input_bytes = *rng.pick(&[Some(usize::MAX), None, Some(1)]);
+            }
         }
         opts.budget = Some(b);
         opts.alias_limits.max_total_replayed_events = *rng.pick(&[0, 1, 10, 1_000_000]);
